@@ -57,8 +57,11 @@ fn idx_list(dim: usize) -> Vec<usize> {
     v
 }
 
-fn run_ops_both(ctx: &mut Ctx, prop: &str, pshape: (usize, usize), win: Win, recv: Recv, ops: &[Op], keys: &dyn Fn(usize, usize) -> u32, twin: bool, tok: bool) {
+fn run_ops_both(ctx: &mut Ctx, prop: &str, pshape: (usize, usize), win: Win, recv: Recv, ops: &[Op], keys: &dyn Fn(usize, usize) -> u32, twin: bool, tok: bool, thin: u64) {
     for op in ops {
+        if !ctx.thin(thin) {
+            continue;
+        }
         let oc = OpCase { pshape, win, recv, op: *op, keys, twin };
         let o = run_op::<Kv>(ctx, &oc);
         let wsize = ((win.1).0 - (win.0).0, (win.1).1 - (win.0).1);
@@ -110,7 +113,7 @@ pub fn run_c13(ctx: &mut Ctx) {
                     }
                 }
             }
-            run_ops_both(ctx, "C13", pshape, win, recv, &ops, &default_keys, false, true);
+            run_ops_both(ctx, "C13", pshape, win, recv, &ops, &default_keys, false, true, 12);
         }
     }
 }
@@ -161,7 +164,7 @@ pub fn run_c14(ctx: &mut Ctx) {
                     }
                 }
             }
-            run_ops_both(ctx, "C14", pshape, win, recv, &ops, &default_keys, false, true);
+            run_ops_both(ctx, "C14", pshape, win, recv, &ops, &default_keys, false, true, 6);
         }
     }
 }
@@ -189,7 +192,7 @@ pub fn run_c15(ctx: &mut Ctx) {
                 }
             }
             let tok = wc * wr <= 36;
-            run_ops_both(ctx, "C15", pshape, win, recv, &ops, &default_keys, false, tok);
+            run_ops_both(ctx, "C15", pshape, win, recv, &ops, &default_keys, false, tok, 1);
         }
     }
 }
@@ -245,6 +248,9 @@ fn run_sorts(ctx: &mut Ctx, prop: &'static str, by_row: bool) {
                         digits.windows(2).all(|w| w[0] <= w[1])
                     };
                     for op in &ops {
+                        if !ctx.thin(2) {
+                            continue;
+                        }
                         let oc = OpCase { pshape, win, recv, op: *op, keys: &keys, twin: matches!(recv, Recv::View | Recv::Nested) };
                         let o = run_op::<Kv>(ctx, &oc);
                         if o != Outcome::Failed && (!sorted_already || o == Outcome::Rejected) {
@@ -364,7 +370,7 @@ pub fn run_c04(ctx: &mut Ctx) {
                 let mut rng = Rng::from_parts(ctx.seed, ctx.cur_idx, 4);
                 let ops = c04_ops(wc, wr, &mut rng);
                 let keys = |c: usize, r: usize| ((c * 3 + r * 5 + (c * r) % 3) % 4) as u32;
-                run_ops_both(ctx, "C04", (pc, pr), win, recv, &ops, &keys, recv != Recv::ThinView, true);
+                run_ops_both(ctx, "C04", (pc, pr), win, recv, &ops, &keys, recv != Recv::ThinView, true, 1);
             }
         }
     }
